@@ -106,3 +106,46 @@ fn post_action_remove_unregisters_the_fd() {
     h.insert_source(Generic::new(a2, Interest::READ, Mode::Level), |_, _, _| Ok(PostAction::Continue)).map_err(|e| e.error).expect("fd free again");
     drop(disp);
 }
+
+/// a hand-written source with two fds registered directly with the poller (it does not filter on a token of its own):
+/// both are ready in the same batch; on the first event the callback removes the source through the handle. The second
+/// event of the batch must not reach the removed source (C06: never invoked again once its current event processing
+/// has finished), and both fds must be out of the poller.
+#[test]
+fn self_removed_source_gets_no_further_event_of_the_batch() {
+    use calloop::{EventSource, Poll, Readiness, Token, TokenFactory};
+    struct Two { a: Rc<UnixStream>, b: Rc<UnixStream> }
+    impl EventSource for Two {
+        type Event = ();
+        type Metadata = ();
+        type Ret = ();
+        type Error = std::io::Error;
+        fn process_events<F>(&mut self, _: Readiness, _: Token, mut cb: F) -> Result<PostAction, Self::Error> where F: FnMut((), &mut ()) { cb((), &mut ()); Ok(PostAction::Continue) }
+        fn register(&mut self, p: &mut Poll, f: &mut TokenFactory) -> calloop::Result<()> {
+            unsafe { p.register(Fd(self.a.clone()), Interest::READ, Mode::Level, f.token())?; p.register(Fd(self.b.clone()), Interest::READ, Mode::Level, f.token()) }
+        }
+        fn reregister(&mut self, p: &mut Poll, f: &mut TokenFactory) -> calloop::Result<()> {
+            p.reregister(Fd(self.a.clone()), Interest::READ, Mode::Level, f.token())?; p.reregister(Fd(self.b.clone()), Interest::READ, Mode::Level, f.token())
+        }
+        fn unregister(&mut self, p: &mut Poll) -> calloop::Result<()> { p.unregister(Fd(self.a.clone()))?; p.unregister(Fd(self.b.clone())) }
+    }
+    let mut el: EventLoop<u32> = EventLoop::try_new().unwrap();
+    let h = el.handle();
+    let (a, mut pa) = UnixStream::pair().unwrap();
+    let (b, mut pb) = UnixStream::pair().unwrap();
+    let (a, b) = (Rc::new(a), Rc::new(b));
+    let tokc: Rc<Cell<Option<RegistrationToken>>> = Rc::new(Cell::new(None));
+    let (h2, t2) = (h.clone(), tokc.clone());
+    let disp = Dispatcher::new(Two { a: a.clone(), b: b.clone() }, move |_, _, n: &mut u32| { *n += 1; h2.remove(t2.get().unwrap()); });
+    tokc.set(Some(h.register_dispatcher(disp.clone()).unwrap()));
+    pa.write_all(b"x").unwrap();
+    pb.write_all(b"x").unwrap();
+    let mut n = 0;
+    el.dispatch(Duration::from_millis(100), &mut n).unwrap();
+    assert_eq!(n, 1, "the callback of a removed source was invoked again for the second event of the batch");
+    let t = std::time::Instant::now();
+    el.dispatch(Duration::from_millis(120), &mut n).unwrap();
+    assert_eq!(n, 1);
+    assert!(t.elapsed() >= Duration::from_millis(110), "a removed source's fd still wakes the loop");
+    drop(disp);
+}
